@@ -119,7 +119,30 @@ def h_scalar_field(env):
     ni = env.choose("number", len(NUMBERS))
     number = NUMBERS[ni]
     cls = getattr(mod, "S%d" % ni)
-    v = shapes.sym_scalar(env, "v", kind)
+    if env.params.get("wide"):
+        # a float field given any double that rounds (to nearest even) to a finite binary32: what Python callers actually pass
+        v = env.f64("v")
+        if env.sym:
+            import z3
+
+            from ..symfloat import F32, RNE
+            from ..sym import mkb
+
+            n32 = z3.fpFPToFP(RNE, v.fp, F32)
+            # (doubles that underflow to +-0.0 in binary32 are left out: the library emits the field with a zero payload, the reference
+            # stores the binary32 zero and treats it as the default - same value, different bytes, and not a binary32 value to begin with)
+            env.assume(mkb(z3.And(z3.Not(z3.fpIsNaN(v.fp)), z3.Not(z3.fpIsInf(n32)), z3.Or(z3.Not(z3.fpIsZero(n32)), z3.fpIsZero(v.fp)))))
+        else:
+            import struct as _st
+
+            try:
+                _st.pack("<f", v)
+                ok = v == v and v not in (float("inf"), float("-inf")) and (_st.unpack("<f", _st.pack("<f", v))[0] != 0 or v == 0)
+            except OverflowError:
+                ok = False
+            env.assume(ok)
+    else:
+        v = shapes.sym_scalar(env, "v", kind)
     m = cls(v=v)
     data = bytes(m)
     env.observe("bytes", data)
@@ -138,7 +161,9 @@ def h_scalar_field(env):
     env.check("len", m.__len__() == len(data))
     m2 = cls().parse(data)
     back = m2.v
-    if kind in ("float", "double"):
+    if env.params.get("wide"):
+        same = sw.scalar_payload("float", back) == sw.scalar_payload("float", v)  # the decoded value is the binary32 nearest to v
+    elif kind in ("float", "double"):
         same = shapes.float_same(back, v, kind)
     else:
         same = back == v
@@ -153,7 +178,12 @@ def h_scalar_field(env):
         spec_bytes = spec if isinstance(spec, bytes) and not isinstance(spec, _sym.SymBytes) else _sym.wire(spec)
         env.check("oracle:spec-bytes==reference-bytes", r.SerializeToString() == spec_bytes)
         r2 = ref["S%d" % ni].FromString(spec_bytes)
-        env.check("oracle:reference-decodes-spec-bytes", shapes.ref_scalar_equal(getattr(r2, "v"), v, kind))
+        want = v
+        if env.params.get("wide"):
+            import struct as _st
+
+            want = _st.unpack("<f", _st.pack("<f", v))[0]
+        env.check("oracle:reference-decodes-spec-bytes", shapes.ref_scalar_equal(getattr(r2, "v"), want, kind))
 
 
 def h_float_positions(env):
@@ -196,6 +226,7 @@ def units(tier):
         u.append(("decode_arbitrary[n=%d]" % n, h_decode_arbitrary, {"n": n}))
     for kind in INT_KINDS + ["bool", "float", "double"]:
         u.append(("scalar_field[%s]" % kind, h_scalar_field, {"kind": kind}))
+    u.append(("scalar_field[float, any double that rounds to a finite binary32]", h_scalar_field, {"kind": "float", "wide": True}))
     for kind in ("float", "double"):
         for label in ("optional", "repeated", "oneof"):
             u.append(("float_positions[%s %s]" % (kind, label), h_float_positions, {"kind": kind, "label": label}))
